@@ -24,6 +24,8 @@ def cfg(name, graphs, T, qe, qn, modes, nes, widths, cuts, maxops, sample, moves
 BOTH, TT, FF = '{TRUE, FALSE}', '{TRUE}', '{FALSE}'
 CUTS = '{"none", "dist", "init", "prob", "both"}'
 Q4, Q3 = '{0, 1, 2, 3}', '{0, 1, 2}'
+# deep random behaviours for `tlc -simulate` (thorough tier): larger graphs, longer traces, longer histories
+cfg('LatticeMC_SIMe', BIGG, 5, Q4, Q3, BOTH, BOTH, '{0, 1, 2}', CUTS, 6, 2, '{"m11", "m10"}', 'TRUE', ['EmitBehaviour'])
 for th in (False, True):
     sx = '_T' if th else ''
     G = BIGG if th else ALLG
